@@ -209,6 +209,11 @@ func VH_C06_ConcurrentConn(n, mode int) {
 	vhHandoff(true)
 	fc := &vhFakeConn{gate: make(chan struct{})}
 	c := NewConnWith(fc, ConnConfig{Topic: "t", Partition: 0, ClientID: "vh"})
+	// the same scenario serves C10: declared guards and the lockset analysis over every field of the Conn, with
+	// real interleavings of the callers
+	vhGuardConn(c)
+	vhWatch(c)
+	vhGuardCheck(true)
 	want := make([]int64, n)
 	got := make([]int64, n)
 	errs := make([]error, n)
@@ -321,6 +326,12 @@ func VH_C06_TransportConcurrent(order int) {
 	}
 	p.ctrl = p.newConnGroup(&networkAddress{network: "tcp", address: "bootstrap:9092"})
 	p.setState(connPoolState{})
+	// serves C10 as well: the pool and its control group under concurrent calls (lockset analysis)
+	vhWatch(p)
+	vhWatch(p.ctrl)
+	vhGuarded(p.ctrl, "idleConns", &p.ctrl.mutex)
+	vhGuarded(p.ctrl, "closed", &p.ctrl.mutex)
+	vhGuardCheck(true)
 	ctx := context.Background()
 	var res [3]Response
 	var errs [3]error
